@@ -1627,4 +1627,301 @@ theorem matched_extra {np : List Nat} {svcs : List (String × Svc)} {F : AMap FK
     obtain ⟨sk, hsk, rfl⟩ := hkv
     exact matchBpfSvc_extra hsk n
 
+/-! ## The desired maps contain nothing but the current services' entries -/
+
+/-- "frontend key `k` belongs to service `svc`": its protocol, and either its port with the cluster IP, an
+external IP or a LoadBalancer VIP, or its node port (on any address: local node-port addresses and the
+per-node NodePortRemote frontends).  Source-range keys belong to the service whose address they carry. -/
+def KeyOf (svc : Svc) (k : FKey) : Prop :=
+  k.proto = svc.proto ∧
+  ((k.port = svc.port ∧ (k.ip = svc.clusterIP ∨ k.ip ∈ svc.extIPs ∨ k.ip ∈ svc.lbVIPs)) ∨
+   (svc.nodePort ≠ 0 ∧ k.port = svc.nodePort))
+
+theorem foldl_set_isSome {ks : List FKey} {v : FVal} {F : AMap FKey FVal} {k : FKey}
+    (h : ((ks.foldl (fun F k => F.set k v) F).get k).isSome) : (F.get k).isSome ∨ k ∈ ks := by
+  induction ks generalizing F with
+  | nil => exact Or.inl h
+  | cons x rest ih =>
+    simp only [List.foldl_cons] at h
+    rcases ih h with h1 | h1
+    · rw [AMap.get_set] at h1
+      split at h1
+      · rename_i e; exact Or.inr (e ▸ List.mem_cons_self ..)
+      · exact Or.inl h1
+    · exact Or.inr (List.mem_cons_of_mem _ h1)
+
+/-- every desired frontend key was `Set` during this sync. -/
+def FK (b : Bld) : Prop := ∀ k, (b.des.F.get k).isSome → ∃ w ∈ b.fwrites, w.1 = k
+
+theorem FK_pres : Pres FK := by
+  constructor
+  · intro b svc id c l f h k hk
+    unfold C42.writeSvc at hk ⊢
+    simp only [AMap.get_set] at hk
+    split at hk
+    · rename_i e; exact ⟨_, List.mem_cons_self .., e.symm⟩
+    · obtain ⟨w, hw, he⟩ := h k hk
+      exact ⟨w, List.mem_cons_of_mem _ hw, he⟩
+  · intro b svc id c l f h k hk
+    unfold C42.writeLBSrc at hk ⊢
+    simp only [] at hk ⊢
+    have base : ∀ k, ((List.foldl (fun F k => F.set k ⟨id, c, l, affOf svc, f⟩) b.des.F (srcKeys svc)).get k).isSome →
+        ∃ w ∈ ((srcKeys svc).map (fun k => (k, (⟨id, c, l, affOf svc, f⟩ : FVal)))).reverse ++ b.fwrites, w.1 = k := by
+      intro k hk
+      rcases foldl_set_isSome hk with h1 | h1
+      · obtain ⟨w, hw, he⟩ := h k h1
+        exact ⟨w, List.mem_append_right _ hw, he⟩
+      · exact ⟨(k, _), List.mem_append_left _ (List.mem_reverse.2 (List.mem_map.2 ⟨k, h1, rfl⟩)), rfl⟩
+    split at hk
+    · rename_i hc; simp only [hc, if_true]; exact base k hk
+    · rename_i hc
+      simp only [hc, if_false, Bool.false_eq_true]
+      simp only [AMap.get_set] at hk
+      split at hk
+      · rename_i e; exact ⟨_, List.mem_cons_self .., e.symm⟩
+      · obtain ⟨w, hw, he⟩ := base k hk
+        exact ⟨w, List.mem_cons_of_mem _ hw, he⟩
+  · intro b skey id eps h; exact h
+  · intro b _ _ _ _ h; exact h
+
+def Owned (svcs : List (String × Svc)) (k : FKey) : Prop := ∃ p ∈ svcs, KeyOf p.2 k
+
+/-- every key carrying `sinfo`'s address, port and protocol belongs to a current service. -/
+def OV (svcs : List (String × Svc)) (sinfo : Svc) : Prop :=
+  ∀ k : FKey, k.ip = sinfo.clusterIP → k.port = sinfo.port → k.proto = sinfo.proto → Owned svcs k
+
+/-- every frontend `Set` of this sync is for a key of a current service. -/
+def QO (svcs : List (String × Svc)) (b : Bld) : Prop := ∀ w ∈ b.fwrites, Owned svcs w.1
+
+theorem QO.writeSvc {svcs : List (String × Svc)} {b : Bld} (h : QO svcs b) (sinfo : Svc) (ov : OV svcs sinfo) (id c l f : Nat) :
+    QO svcs (C42.writeSvc b sinfo id c l f) := by
+  intro w hw
+  unfold C42.writeSvc at hw
+  rcases List.mem_cons.1 hw with rfl | hw
+  · exact ov _ rfl rfl rfl
+  · exact h w hw
+
+theorem QO.writeLBSrc {svcs : List (String × Svc)} {b : Bld} (h : QO svcs b) (sinfo : Svc) (ov : OV svcs sinfo) (id c l f : Nat) :
+    QO svcs (C42.writeLBSrc b sinfo id c l f) := by
+  have hsrc : ∀ w ∈ ((srcKeys sinfo).map (fun k => (k, (⟨id, c, l, affOf sinfo, f⟩ : FVal)))).reverse ++ b.fwrites, Owned svcs w.1 := by
+    intro w hw
+    rcases List.mem_append.1 hw with hw | hw
+    · obtain ⟨k, hk, rfl⟩ := List.mem_map.1 (List.mem_reverse.1 hw)
+      unfold srcKeys at hk
+      obtain ⟨r, _, rfl⟩ := List.mem_map.1 hk
+      exact ov _ rfl rfl rfl
+    · exact h w hw
+  intro w hw
+  unfold C42.writeLBSrc at hw
+  simp only [] at hw
+  split at hw
+  · exact hsrc w hw
+  · rcases List.mem_cons.1 hw with rfl | hw
+    · exact ov _ rfl rfl rfl
+    · exact hsrc w hw
+
+theorem QO.applySvc {svcs : List (String × Svc)} {b : Bld} (h : QO svcs b) (prev : AMap SvcKey SvcInfo) (hint : AMap SvcKey Nat)
+    (skey : SvcKey) (sinfo : Svc) (ov : OV svcs sinfo) (eps : List Ep) : QO svcs (C42.applySvc prev hint b skey sinfo eps) := by
+  have key : ∀ (b : Bld) id, QO svcs b → QO svcs (C42.applySvcWith b skey sinfo id eps) := by
+    intro b id hb
+    have h1 : QO svcs { b with des := { b.des with B := writeBackends b.des.B id 0 (readyOrdered eps) }, calls := (skey, id, eps) :: b.calls } := hb
+    have h2 := QO.writeSvc h1 sinfo ov id (readyOrdered eps).length (localReady eps) (if sinfo.intLocal then flgInternalLocal else 0)
+    unfold C42.applySvcWith C42.updateService
+    cases skey.extra <;> exact h2
+  unfold C42.applySvc
+  split
+  · exact key _ _ h
+  · exact key _ _ h
+
+theorem QO.applyDerived {svcs : List (String × Svc)} {b : Bld} (h : QO svcs b) (sname : String) (t : DType) (sinfo : Svc)
+    (ov : OV svcs sinfo) : QO svcs (C42.applyDerived b sname t sinfo) := by
+  unfold C42.applyDerived
+  split
+  · exact h
+  · simp only []
+    split
+    · exact QO.writeLBSrc h sinfo ov _ _ _ _
+    · exact QO.writeSvc h sinfo ov _ _ _ _
+
+theorem foldl_QO {α : Type} {svcs : List (String × Svc)} (f : Bld → α → Bld) (l : List α)
+    (hf : ∀ b a, a ∈ l → QO svcs b → QO svcs (f b a)) (b : Bld) (h : QO svcs b) : QO svcs (l.foldl f b) := by
+  induction l generalizing b with
+  | nil => exact h
+  | cons a l ih =>
+    exact ih (fun b x hx hb => hf b x (List.mem_cons_of_mem _ hx) hb) _ (hf b a (List.mem_cons_self ..) h)
+
+theorem QO.lbFold {svcs : List (String × Svc)} {b : Bld} (h1 : QO svcs b) (sname : String) (svc : Svc)
+    (hm : (sname, svc) ∈ svcs) : QO svcs (lbFold sname svc b) := by
+  unfold C42.lbFold
+  exact foldl_QO (fun b ip => C42.applyDerived b sname .lb { svc with clusterIP := ip }) svc.lbVIPs
+    (fun b ip hip hb => QO.applyDerived hb sname .lb { svc with clusterIP := ip }
+      (fun k a1 a2 a3 => ⟨(sname, svc), hm, a3, Or.inl ⟨a2, Or.inr (Or.inr (by rw [a1]; exact hip))⟩⟩)) _ h1
+
+theorem QO.extFold {svcs : List (String × Svc)} {b : Bld} (h1 : QO svcs b) (sname : String) (svc : Svc)
+    (hm : (sname, svc) ∈ svcs) : QO svcs (extFold sname svc b) := by
+  unfold C42.extFold
+  exact foldl_QO (fun b ip => C42.applyDerived b sname .ext { svc with clusterIP := ip }) svc.extIPs
+    (fun b ip hip hb => QO.applyDerived hb sname .ext { svc with clusterIP := ip }
+      (fun k a1 a2 a3 => ⟨(sname, svc), hm, a3, Or.inl ⟨a2, Or.inr (Or.inl (by rw [a1]; exact hip))⟩⟩)) _ h1
+
+theorem ovNP {svcs : List (String × Svc)} (sname : String) (svc : Svc) (hm : (sname, svc) ∈ svcs) (hnz : svc.nodePort ≠ 0)
+    (ip : Nat) : OV svcs { svc with clusterIP := ip, port := svc.nodePort } :=
+  fun _ _ a2 a3 => ⟨(sname, svc), hm, a3, Or.inr ⟨hnz, a2⟩⟩
+
+theorem QO.npFold {svcs : List (String × Svc)} {b : Bld} (h1 : QO svcs b) (s : Syncer) (sname : String) (svc : Svc)
+    (hm : (sname, svc) ∈ svcs) (hnz : svc.nodePort ≠ 0) : QO svcs (npFold s sname svc b) := by
+  unfold C42.npFold
+  refine foldl_QO (npStep sname svc) s.npIPs (fun b ip _ hb => ?_) _ h1
+  unfold npStep
+  split
+  · exact hb
+  · exact QO.applyDerived hb sname .np { svc with clusterIP := ip, port := svc.nodePort } (ovNP sname svc hm hnz ip)
+
+theorem QO.nprFold {svcs : List (String × Svc)} {b : Bld} (h1 : QO svcs b) (s : Syncer) (hint : AMap SvcKey Nat)
+    (sname : String) (svc : Svc) (eps : List Ep) (hm : (sname, svc) ∈ svcs) (hnz : svc.nodePort ≠ 0) :
+    QO svcs (nprFold s hint sname svc eps b) := by
+  unfold C42.nprFold
+  refine foldl_QO _ (expandNodePorts s.routes eps) (fun b g _ hb => ?_) _ h1
+  exact QO.applySvc hb s.prevSvc hint ⟨sname, .npRemote g.1⟩ { svc with clusterIP := g.1, port := svc.nodePort }
+    (ovNP sname svc hm hnz g.1) g.2
+
+theorem QO.applyRest {svcs : List (String × Svc)} {b : Bld} (h1 : QO svcs b) (s : Syncer) (hint : AMap SvcKey Nat)
+    (sname : String) (svc : Svc) (eps : List Ep) (hm : (sname, svc) ∈ svcs) :
+    QO svcs (C42.applyRest s hint b sname svc eps) := by
+  have h3 := QO.extFold (QO.lbFold h1 sname svc hm) sname svc hm
+  rw [applyRest_eq]
+  by_cases hnz : (svc.nodePort != 0) = true
+  · have hnz' : svc.nodePort ≠ 0 := by simpa using hnz
+    have h4 := QO.npFold h3 s sname svc hm hnz'
+    by_cases hil : svc.intLocal = true
+    · simp only [hnz, hil, if_true]; exact QO.nprFold h4 s hint sname svc eps hm hnz'
+    · simp only [hnz, hil, if_true, if_false, Bool.false_eq_true]; exact h4
+  · simp only [hnz, if_false, Bool.false_eq_true]; exact h3
+
+theorem QO.applyService {svcs : List (String × Svc)} {b : Bld} (h : QO svcs b) (s : Syncer) (st : KState) (hint : AMap SvcKey Nat)
+    (sname : String) (svc : Svc) (hm : (sname, svc) ∈ svcs) : QO svcs (C42.applyService s st hint b sname svc) := by
+  have ovP : OV svcs svc := fun k h1 h2 h3 => ⟨(sname, svc), hm, h3, Or.inl ⟨h2, Or.inl h1⟩⟩
+  unfold C42.applyService
+  exact QO.applyRest (QO.applySvc h s.prevSvc hint ⟨sname, .prim⟩ svc ovP _) s hint sname svc _ hm
+
+theorem QO.buildDesired (s : Syncer) (st : KState) (hint : AMap SvcKey Nat) : QO st.svcs (C42.buildDesired s st hint) := by
+  unfold C42.buildDesired
+  exact foldl_QO _ st.svcs (fun b p hp hb => QO.applyService hb s st hint p.1 p.2 hp) _ (fun _ h => by simp at h)
+
+/-! ### … and no stale backend -/
+
+theorem writeBackends_isSome_inv (B : AMap BKey BVal) (id start : Nat) (l : List Ep) (k : BKey)
+    (h : ((writeBackends B id start l).get k).isSome) :
+    (B.get k).isSome ∨ (k.id = id ∧ start ≤ k.idx ∧ k.idx < start + l.length) := by
+  induction l generalizing B start with
+  | nil => exact Or.inl h
+  | cons e rest ih =>
+    simp only [writeBackends] at h
+    rcases ih _ _ h with h1 | ⟨h1, h2, h3⟩
+    · rw [AMap.get_set] at h1
+      split at h1
+      · rename_i e'; subst e'; exact Or.inr ⟨rfl, Nat.le_refl _, by simp⟩
+      · exact Or.inl h1
+    · exact Or.inr ⟨h1, by omega, by simp only [List.length_cons]; omega⟩
+
+/-- every desired backend entry lies in the block of an `updateService` call of this sync. -/
+def BK (b : Bld) : Prop :=
+  ∀ k, (b.des.B.get k).isSome → ∃ c ∈ b.calls, c.2.1 = k.id ∧ k.idx < (readyOrdered c.2.2).length
+
+theorem BK_pres : Pres BK := by
+  constructor
+  · intro b svc id c l f h k hk
+    rw [writeSvc_B] at hk
+    have e1 : (C42.writeSvc b svc id c l f).calls = b.calls := by unfold C42.writeSvc; rfl
+    rw [e1]; exact h k hk
+  · intro b svc id c l f h k hk
+    rw [writeLBSrc_B] at hk
+    have e1 : (C42.writeLBSrc b svc id c l f).calls = b.calls := by
+      unfold C42.writeLBSrc; simp only []; split <;> rfl
+    rw [e1]; exact h k hk
+  · intro b skey id eps h k hk
+    rcases writeBackends_isSome_inv _ _ _ _ _ hk with h1 | ⟨h1, _, h3⟩
+    · obtain ⟨c, hc, hh⟩ := h k h1
+      exact ⟨c, List.mem_cons_of_mem _ hc, hh⟩
+    · exact ⟨(skey, id, eps), List.mem_cons_self .., h1.symm, by simpa using h3⟩
+  · intro b _ _ _ _ h; exact h
+
+/-- like `Pres`, with `updateService` as one step (for invariants that relate its two halves). -/
+structure Pres2 (P : Bld → Prop) : Prop where
+  writeSvc : ∀ b svc id c l f, P b → P (writeSvc b svc id c l f)
+  writeLBSrc : ∀ b svc id c l f, P b → P (writeLBSrc b svc id c l f)
+  updsvc : ∀ b skey svc id eps, P b → P (updateService b skey svc id eps).1
+  book : ∀ (b : Bld) newSvc newEps nextId fresh, P b → P { b with newSvc, newEps, nextId, fresh }
+
+theorem Pres2.buildDesired {P : Bld → Prop} (hp : Pres2 P) (s : Syncer) (st : KState) (hint : AMap SvcKey Nat)
+    (h0 : P { des := ⟨[], []⟩, newSvc := [], newEps := [], nextId := s.nextId, fresh := [], calls := [], fwrites := [] }) :
+    P (C42.buildDesired s st hint) := by
+  have hSvc : ∀ b prev skey svc eps, P b → P (C42.applySvc prev hint b skey svc eps) := by
+    intro b prev skey svc eps hb
+    unfold C42.applySvc C42.applySvcWith
+    split
+    · exact hp.book _ _ _ _ _ (hp.updsvc _ _ _ _ _ hb)
+    · exact hp.book _ _ _ _ _ (hp.updsvc _ _ _ _ _ (hp.book b b.newSvc b.newEps _ _ hb))
+  have hDer : ∀ b sname t sinfo, P b → P (C42.applyDerived b sname t sinfo) := by
+    intro b sname t sinfo hb
+    unfold C42.applyDerived
+    split
+    · exact hb
+    · simp only []
+      split
+      · exact hp.book _ _ _ _ _ (hp.writeLBSrc _ _ _ _ _ _ hb)
+      · exact hp.book _ _ _ _ _ (hp.writeSvc _ _ _ _ _ _ hb)
+  have hRest : ∀ b sname svc eps, P b → P (C42.applyRest s hint b sname svc eps) := by
+    intro b sname svc eps hb
+    rw [applyRest_eq]
+    have h3 : P (extFold sname svc (lbFold sname svc b)) := by
+      unfold extFold lbFold
+      exact foldl_pres (P := P) _ (fun b a hb => hDer _ _ _ _ hb) _ _ (foldl_pres (P := P) _ (fun b a hb => hDer _ _ _ _ hb) _ _ hb)
+    have h4 : P (npFold s sname svc (extFold sname svc (lbFold sname svc b))) := by
+      unfold npFold
+      exact foldl_pres (P := P) _ (fun b a hb => by unfold npStep; split; exact hb; exact hDer _ _ _ _ hb) _ _ h3
+    by_cases hnz : (svc.nodePort != 0) = true
+    · by_cases hil : svc.intLocal = true
+      · simp only [hnz, hil, if_true]
+        unfold nprFold
+        exact foldl_pres (P := P) _ (fun b g hb => hSvc _ _ _ _ _ hb) _ _ h4
+      · simp only [hnz, hil, if_true, if_false, Bool.false_eq_true]; exact h4
+    · simp only [hnz, if_false, Bool.false_eq_true]; exact h3
+  unfold C42.buildDesired
+  refine foldl_pres (P := P) _ (fun b p hb => ?_) _ _ h0
+  unfold C42.applyService
+  exact hRest _ _ _ _ (hSvc _ _ _ _ _ hb)
+
+/-- every `updateService` call of this sync is followed by a frontend `Set` with its ID and count. -/
+def CF (b : Bld) : Prop :=
+  ∀ c ∈ b.calls, ∃ w ∈ b.fwrites, w.2.id = c.2.1 ∧ w.2.count = (readyOrdered c.2.2).length
+
+theorem CF_pres2 : Pres2 CF := by
+  constructor
+  · intro b svc id c l f h cc hc
+    have e1 : (C42.writeSvc b svc id c l f).calls = b.calls := by unfold C42.writeSvc; rfl
+    rw [e1] at hc
+    obtain ⟨w, hw, hh⟩ := h cc hc
+    exact ⟨w, (memw_pres w).writeSvc _ _ _ _ _ _ hw, hh⟩
+  · intro b svc id c l f h cc hc
+    have e1 : (C42.writeLBSrc b svc id c l f).calls = b.calls := by
+      unfold C42.writeLBSrc; simp only []; split <;> rfl
+    rw [e1] at hc
+    obtain ⟨w, hw, hh⟩ := h cc hc
+    exact ⟨w, (memw_pres w).writeLBSrc _ _ _ _ _ _ hw, hh⟩
+  · intro b skey svc id eps h cc hc
+    have hcalls : (C42.updateService b skey svc id eps).1.calls = (skey, id, eps) :: b.calls := by
+      unfold C42.updateService C42.writeSvc; cases skey.extra <;> rfl
+    have hfw : ∃ v : FVal, (C42.updateService b skey svc id eps).1.fwrites = (zeroKey svc, v) :: b.fwrites ∧ v.id = id ∧
+        v.count = (readyOrdered eps).length := by
+      unfold C42.updateService C42.writeSvc; cases skey.extra <;> exact ⟨_, rfl, rfl, rfl⟩
+    obtain ⟨v, hf, hv1, hv2⟩ := hfw
+    rw [hcalls] at hc
+    rw [hf]
+    rcases List.mem_cons.1 hc with rfl | hc
+    · exact ⟨(zeroKey svc, v), List.mem_cons_self .., hv1, hv2⟩
+    · obtain ⟨w, hw, hh⟩ := h cc hc
+      exact ⟨w, List.mem_cons_of_mem _ hw, hh⟩
+  · intro b _ _ _ _ h; exact h
+
 end CalicoVerif.C42
